@@ -45,7 +45,7 @@ WindowOK(r) ==
 SessionOK(r) ==
   IF r.flood
     THEN \A i \in 1..Len(r.lines) : r.lines[i].w - r.lines[i].issued < Prompt /\ r.lines[i].rl = 0
-    ELSE (\A i \in 1..Len(r.lines) : StepOK(r, i)) /\ WindowOK(r)
+    ELSE (\A i \in 1..Len(r.lines) : StepOK(r, i)) /\ (r.nowindow \/ WindowOK(r))
 
 TInit == l = 1
 Note(i) == IF Cardinality(TLCGet(2)) < 3 THEN PrintT(<<"NONCONFORMING", i, TraceLog[i]>>) ELSE TRUE
